@@ -53,7 +53,7 @@ ArgsOK(e, p) ==
   /\ e.ev = "purge.deq" => S'.loc[p].ok = e.ok
 
 \* lines that are not the end of a spec step: notes, and the second-layer hook points inside one step
-Inner == {"q.len", "q.deq", "q.enq", "wrap.wf", "wgc.load", "bind.sub", "ad.sub", "job.sp.load", "job.mc.load", "jclose.checked", "disp.cas.load", "reap.expired", "add.pre", "notify.done"}
+Inner == {"q.len", "q.deq", "q.enq", "wrap.wf", "wgc.load", "bind.sub", "ad.sub", "job.sp.load", "job.mc.load", "jclose.checked", "disp.cas.load", "reap.expired", "add.pre"}
 NoStep == {"call", "ret", "c.start", "loop.start", "notify.sent", "notify.dropped", "quiescent"} \cup Inner
 
 \* a line of a process parked at the label it reached
